@@ -816,3 +816,8 @@ M('c14-revert-s-root-recursion', ['C14'], 'core.py',
   "            todo.__ops__ = (T if root is S else root,) + t_path[i+2:]",
   "            todo.__ops__ = (root,) + t_path[i+2:]",
   "revert of the repair: S-rooted expressions restart from the scope after a wildcard")
+
+M('c13-revert-ordered-known-types', ['C13'], 'core.py',
+  "        known_types = list(OrderedDict.fromkeys(\n            sum([list(m.keys()) for m in self._op_type_map.values()], [])))",
+  "        known_types = set(sum([list(m.keys()) for m in self._op_type_map.values()], []))",
+  "revert of the repair: known types are inserted into the type tree in set (address) order")
